@@ -168,6 +168,13 @@ class Seq:
         raise U(f"method {attr} on symbolic sequence", node)
 
 
+class Chunk:
+    """a symbolic-length run of elements inside an otherwise concrete comprehension result"""
+
+    def __init__(self, seq):
+        self.seq = seq
+
+
 class StarSeq:
     """`*seq` of a symbolic-length sequence in a call"""
 
@@ -269,6 +276,10 @@ def and_(ex, a, b):
     if b is True:
         return a
     return z3.And(a, b)
+
+
+def asbool(t):
+    return z3.BoolVal(t) if isinstance(t, bool) else t
 
 
 def and_all(cs):
@@ -376,6 +387,11 @@ def getitem(ex, base, idx, node):
         raise U("dict lookup with unknown key", node)
     if hasattr(base, "sx_getitem"):
         return base.sx_getitem(ex, idx, node)
+    hook = getattr(ex.reg, "getitem_hook", None)
+    if hook is not None:
+        r = hook(ex, base, idx, node)
+        if r is not NotImplemented:
+            return r
     raise U(f"subscript of {type(base).__name__}", node)
 
 
@@ -526,6 +542,9 @@ class Selection:
         ctx.assume(ctx.forall_range2(0, M, lambda j, l: sel(j) < sel(l)))
         ctx.assume(ctx.forall_range(0, n, lambda t: z3.Implies(keep(t), z3.And(0 <= cnt(t), cnt(t) < M, sel(cnt(t)) == t)),
                                     pat=lambda t: cnt(t)))
+        # two consequences of the definition that need induction (so they are stated): everything kept / nothing kept
+        ctx.assume(z3.Implies(ctx.forall_range(0, n, lambda t: keep(t)), z3.And(M == n, ctx.forall_range(0, n, lambda j: sel(j) == j))))
+        ctx.assume(z3.Implies(ctx.forall_range(0, n, lambda t: z3.Not(keep(t))), M == 0))
 
 
 def selection_for(ex, n, keep):
@@ -558,6 +577,11 @@ def filtered_seq(ex, seq, item, keep, node):
 
 
 def make_set(ex, r, node):
+    if isinstance(r, list) and any(isinstance(x, Chunk) for x in r):
+        hook = getattr(ex.reg, "make_union", None)
+        if hook:
+            return hook(ex, r, node)
+        raise U("set comprehension with symbolic-length parts", node)
     if isinstance(r, list):
         return PySet(r)
     raise U("set comprehension over symbolic sequence", node)
